@@ -6,6 +6,7 @@
 mod util;
 mod srv;
 mod e_subs;
+mod e_revise;
 
 use serde_json::Value;
 use std::io::{BufRead, BufReader, BufWriter, Write};
@@ -15,6 +16,7 @@ pub type Obs = Vec<Value>;
 fn run_case(engine: &str, case: &Value, out: &mut Obs) {
     match engine {
         "subs" => e_subs::run_case(case, out),
+        "revise" => e_revise::run_case(case, out),
         _ => {
             eprintln!("unknown engine {}", engine);
             std::process::exit(2);
